@@ -330,7 +330,14 @@ class StateMachine(object):  # pylint: disable=too-many-public-methods
     def action(self, event):
         # (int) -> None
         """Execute the action triggered by event"""
-        action = self.transition_table[(event, self.current_state)]
+        try:
+            action = self.transition_table[(event, self.current_state)]
+        except KeyError:
+            # Event is not defined for the current state, for example request
+            # primitive from the local user that is not aware yet that
+            # association is gone. There is nothing to do about it, and it
+            # shall not stop the service from finishing the association.
+            return
         self.current_state = action()
 
     def ae_1(self):
